@@ -44,9 +44,10 @@ CLAIMED = {
         engine="iosim",
         technique="deterministic simulation: seeded save/overwrite/load "
                   "histories on a scratch directory with disk-full faults "
-                  "injected at a seeded byte offset (RLIMIT_FSIZE seam), "
-                  "checked against an in-memory model path -> last "
-                  "acknowledged mesh; ddmin + exact replay",
+                  "injected at a seeded byte offset (RLIMIT_FSIZE seam) and "
+                  "open-fails faults (RLIMIT_NOFILE seam), checked against an "
+                  "in-memory model path -> last acknowledged mesh; ddmin + "
+                  "exact replay",
         text="Seeded search over I/O histories and fault offsets with real "
              "meshio and real files; fault-free and fault-injecting "
              "configurations are separate. Sampling, not enumeration.",
@@ -60,7 +61,9 @@ CLAIMED = {
                   "or fault injector: the code has no seam for either): "
                   "seeded mesh-operation histories containing uniform "
                   "refinement, checked step by step against an independent "
-                  "geometric reference model; ddmin + exact replay",
+                  "geometric reference model (plus scale probes with light "
+                  "vectorised checks on meshes above 46340 vertices); ddmin + "
+                  "exact replay",
         text="Seeded search over operation histories; oracle is own geometry "
              "(facet tables, parent maps, measures, probe points), not "
              "skfem's connectivity. Sampling, not enumeration.",
